@@ -267,6 +267,40 @@ theorem retryLoop_scripted_all_fail (o : List Out) (e : Err) (rem : Nat) :
     · simp; omega
     · rfl
 
+theorem scripted_eq (st : St) :
+    scripted st = (headRes st.script,
+      { st with log := st.log ++ [⟨st.ctx.deadline, st.ctx.done, st.acked, st.delay⟩],
+                md := (match st.hcid with | some v => mset st.md cidKey v | none => st.md),
+                script := nextScript st.script }) := by
+  unfold scripted
+  obtain ⟨c, md, d, u, a, t, sc, lg, hc⟩ := st
+  rcases sc with _ | ⟨r, _ | ⟨r2, rest⟩⟩ <;> cases hc <;> simp [headRes, nextScript]
+
+theorem retryLoop_scripted_attempts (rem : Nat) :
+    ∀ outs e (st : St),
+      (retryLoop scripted false rem outs e st).2.log.length = st.log.length + ownLoop rem st.script := by
+  induction rem with
+  | zero =>
+    intro outs e st
+    unfold retryLoop
+    rw [scripted_eq]
+    cases h : headRes st.script with
+    | panic v => simp [ownLoop]
+    | ret o2 e2 => cases e2 <;> simp [ownLoop]
+  | succ r ih =>
+    intro outs e st
+    unfold retryLoop
+    rw [scripted_eq]
+    cases h : headRes st.script with
+    | panic v => simp [ownLoop, h, Res.isErr]
+    | ret o2 e2 =>
+      cases e2 with
+      | none => simp [ownLoop, h, Res.isErr]
+      | some e2 =>
+        simp only [Bool.false_eq_true, if_false, ownLoop, h, Res.isErr, if_true]
+        rw [ih]
+        simp; omega
+
 /-! ### DelayOnError arithmetic -/
 
 theorem applyDelay_ns (c : DelayCfg) (d : Nat) : applyDelay c (.ns d) = min (d * c.num / c.den) c.max := by
@@ -406,6 +440,46 @@ theorem validRun_spacing (d : Nat) (a : Start) (l : List Start) (h : validRun d 
     have h2 : (b.tick + n) * d ≤ (b :: rest)[n].tick * d := Nat.mul_le_mul_right d ht
     rw [Nat.add_mul] at h2
     omega
+
+theorem laxRun_of_validRun (d : Nat) (l : List Start) (h : validRun d l = true) : laxRun d l = true := by
+  induction l with
+  | nil => rfl
+  | cons a rest ih =>
+    cases rest with
+    | nil => simpa [validRun, laxRun] using h
+    | cons b rest2 =>
+      have ht := ih (validRun_tail d a _ h)
+      simp only [validRun, Bool.and_eq_true, decide_eq_true_eq] at h
+      simp only [laxRun, Bool.and_eq_true, decide_eq_true_eq]
+      exact ⟨⟨⟨h.1.1.1.1.1, h.1.1.1.1.2⟩, h.1.1.2⟩, ht⟩
+
+/-- the (n+1)-th start of a run whose first start consumed tick `≥ k` consumed tick `≥ k+n`, not before its nominal time -/
+theorem laxRun_nth (d : Nat) (l : List Start) : ∀ (k : Nat), laxRun d l = true → (∀ a, l.head? = some a → k ≤ a.tick) →
+    ∀ n (hn : n < l.length), (k + n) * d ≤ (l[n]).time := by
+  induction l with
+  | nil => intro k _ _ n hn; simp at hn
+  | cons a rest ih =>
+    intro k h hk n hn
+    have hka : k ≤ a.tick := hk a rfl
+    cases n with
+    | zero =>
+      have ha : a.tick * d ≤ a.time := by
+        cases rest with
+        | nil => simp only [laxRun, Bool.and_eq_true, decide_eq_true_eq] at h; exact h.2
+        | cons b r2 => simp only [laxRun, Bool.and_eq_true, decide_eq_true_eq] at h; exact h.1.1.2
+      have := Nat.mul_le_mul_right d hka
+      simp only [List.getElem_cons_zero, Nat.add_zero]
+      omega
+    | succ n =>
+      cases rest with
+      | nil => simp at hn
+      | cons b r2 =>
+        simp only [laxRun, Bool.and_eq_true, decide_eq_true_eq] at h
+        have := ih (k + 1) h.2 (by intro x hx; simp at hx; subst hx; omega) n (by simpa using hn)
+        simp only [List.getElem_cons_succ]
+        have e : k + 1 + n = k + (n + 1) := by omega
+        rw [e] at this
+        exact this
 
 theorem ceil_mul_ge (t d : Nat) (hd : 0 < d) : t ≤ (t + d - 1) / d * d := by
   have h0 := Nat.div_add_mod (t + d - 1) d
